@@ -40,6 +40,7 @@ type context struct {
 	store     *py.ModuleStore
 	opts      py.ContextOpts
 	closeOnce sync.Once
+	mu        sync.Mutex // guards closing/closed and admission of new executions
 	closing   bool
 	closed    bool
 	running   sync.WaitGroup
@@ -71,10 +72,10 @@ func NewContext(opts py.ContextOpts) py.Context {
 // ModuleInit digests a ModuleImpl, compiling and marshalling as needed, creating a new Module instance in this Context.
 func (ctx *context) ModuleInit(impl *py.ModuleImpl) (*py.Module, error) {
 	err := ctx.pushBusy()
-	defer ctx.popBusy()
 	if err != nil {
 		return nil, err
 	}
+	defer ctx.popBusy()
 
 	if impl.Code == nil && len(impl.CodeSrc) > 0 {
 		impl.Code, err = py.Compile(string(impl.CodeSrc), impl.Info.FileDesc, py.ExecMode, 0, true)
@@ -113,10 +114,10 @@ func (ctx *context) ModuleInit(impl *py.ModuleImpl) (*py.Module, error) {
 // See interface py.Context defined in py/run.go
 func (ctx *context) ResolveAndCompile(pathname string, opts py.CompileOpts) (py.CompileOut, error) {
 	err := ctx.pushBusy()
-	defer ctx.popBusy()
 	if err != nil {
 		return py.CompileOut{}, err
 	}
+	defer ctx.popBusy()
 
 	tryPaths := defaultPaths
 	if opts.UseSysPaths {
@@ -193,7 +194,9 @@ func (ctx *context) ResolveAndCompile(pathname string, opts py.CompileOpts) (py.
 }
 
 func (ctx *context) pushBusy() error {
-	if ctx.closed {
+	ctx.mu.Lock()
+	defer ctx.mu.Unlock()
+	if ctx.closing || ctx.closed {
 		return py.ExceptionNewf(py.RuntimeError, "Context closed")
 	}
 	ctx.running.Add(1)
@@ -207,9 +210,13 @@ func (ctx *context) popBusy() {
 // See interface py.Context defined in py/run.go
 func (ctx *context) Close() error {
 	ctx.closeOnce.Do(func() {
+		ctx.mu.Lock()
 		ctx.closing = true
+		ctx.mu.Unlock()
 		ctx.running.Wait()
+		ctx.mu.Lock()
 		ctx.closed = true
+		ctx.mu.Unlock()
 
 		// Give each module a chance to release resources
 		ctx.store.OnContextClosed()
@@ -279,10 +286,10 @@ func resolveRunPath(runPath string, opts py.CompileOpts, pathObjs []py.Object, t
 // See interface py.Context defined in py/run.go
 func (ctx *context) RunCode(code *py.Code, globals, locals py.StringDict, closure py.Tuple) (py.Object, error) {
 	err := ctx.pushBusy()
-	defer ctx.popBusy()
 	if err != nil {
 		return nil, err
 	}
+	defer ctx.popBusy()
 
 	return vm.EvalCode(ctx, code, globals, locals, nil, nil, nil, nil, closure)
 }
